@@ -50,6 +50,9 @@ def check(run, project):
     l3(run, mod, fns)
     l4(run, mod, fns, project)
     l5(run, mod, fns)
+    l7(run, mod, fns, project)
+    from .shared import unbound_locals
+    unbound_locals(run, project, "L6", (MAIN, "tpmstream.common.canonical"), what="a traceback instead of the command's output")
     run.floor("L1", 6)
     run.floor("L2", 5)
 
@@ -466,6 +469,75 @@ def l4(run, mod, fns, project):
             run.ob("L4", ok, "each candidate is decoded strictly and completely, and reported with its command code",
                    f"Canonical(...) arguments changed: the candidate is tried as {got_args} and reported with `{code_txt}`, required "
                    f"{want_args} reported with `{cc}`", module=mod, node=ib.node or fn, func=fn.name, construct="parse_all_types Canonical")
+
+
+def l7(run, mod, fns, project):
+    """`type` can only list "exactly the types under which the file decodes strictly" if a candidate's decode has run when
+    parse_all_types decides about it: Canonical(..., lazy=False) must drain the decoder inside the constructor (so that a
+    rejection is raised inside the try), with the type / command code / strictness it was given; and the listed name is the
+    decoded object's type, a response being listed with its command code."""
+    cm = project.modules.get("tpmstream.common.canonical")
+    if cm is None:
+        raise AnalysisError("L7: common/canonical.py not found")
+    ini, evs = cm.functions().get("Canonical.__init__"), cm.functions().get("Canonical.events")
+    if ini is None or evs is None:
+        raise AnalysisError("L7: Canonical.__init__ / Canonical.events not found")
+    params = [a.arg for a in ini.args.args]
+    lazy = "lazy" if "lazy" in params else None
+    if lazy is None:
+        raise AnalysisError("L7: Canonical.__init__ has no `lazy` parameter")
+    n = 0
+    for p in paths.Summariser(cm, ini).paths():
+        if p.end == "raise":
+            continue
+        lz = p.truth(f"truthy {lazy}")
+        stores = {norm(e.targets[0]): e.value for k, e, _ in p.effects if k == "store" and isinstance(e, ast.Assign)}
+        src = stores.get("self._events")
+        drains = [i for i, (k, e, _) in enumerate(p.effects) if k in ("call", "assign", "bind") and
+                  paths.text(e if k == "call" else e.value) in ("self.events", "list(self._events)", "list(self.events)")]
+        st_i = [i for i, (k, e, _) in enumerate(p.effects) if k == "store" and isinstance(e, ast.Assign) and norm(e.targets[0]) == "self._events"]
+        if lz is False:
+            n += 1
+            run.ob("L7", bool(drains) and bool(st_i) and drains[-1] > st_i[0], f"Canonical [{label(p)[:70]}]: an eager object has decoded",
+                   f"on the path [{label(p)}] (lazy is false) the constructor returns without draining the decoder: a rejection surfaces "
+                   "later, outside the try of the type search - every type is listed, or the listing dies with a traceback", module=cm,
+                   node=p.node or ini, func="Canonical.__init__", construct="Canonical eager decode")
+        if p.truth("isinstance(input, bytes)") is True:
+            inner = src.args[0] if isinstance(src, ast.Call) and call_name(src) == "Generator" and src.args else src
+            kws = {k.arg: norm(k.value) for k in inner.keywords} if isinstance(inner, ast.Call) else {}
+            want = {"tpm_type": "tpm_type", "buffer": "input", "root_path": "path", "command_code": "command_code", "abort_on_error": "abort_on_error"}
+            n += 1
+            run.ob("L7", isinstance(inner, ast.Call) and norm(inner.func) == "format_in.marshal" and kws == want and not inner.args,
+                   f"Canonical [{label(p)[:70]}]: bytes are decoded with the given front-end, type, command code and strictness",
+                   f"the decoder is created as `{norm(inner)[:160] if inner is not None else None}`; required format_in.marshal with {want}",
+                   module=cm, node=p.node or ini, func="Canonical.__init__", construct="Canonical decode arguments")
+    for p in paths.Summariser(cm, evs).paths():
+        if p.truth("isinstance(self._events, Generator)") is not True:
+            continue
+        drained = [norm(e.targets[0]) for k, e, _ in p.effects if k in ("assign", "bind") and isinstance(e, ast.Assign) and paths.text(e.value) == "list(self._events)"]
+        stores = {norm(e.targets[0]): paths.text(e.value) for k, e, _ in p.effects if k == "store" and isinstance(e, ast.Assign)}
+        ok = len(drained) == 1 and stores.get("self._events") in (drained[0], "list(self._events)") and p.end == "return" and p.value_text() in ("self._events", drained[0])
+        if p.truth("self._object is None") is True:
+            ok = ok and stores.get("self._object") == "self._events.value"
+        n += 1
+        run.ob("L7", ok, f"Canonical.events [{label(p)[:70]}]: the decoder is drained once and its events / object kept",
+               f"on the path [{label(p)}] events does {p.effect_texts()} and returns `{p.value_text()}`", module=cm, node=p.node or evs,
+               func="Canonical.events", construct="Canonical.events drain")
+    run.require(n >= 5, f"L7: only {n} obligations on Canonical")
+    # the listed name
+    ft = fns["find_type"]
+    namer = next((f_ for f_ in ast.walk(ft) if isinstance(f_, ast.FunctionDef) and f_ is not ft), None)
+    if namer is None:
+        run.info("L7: the naming helper of find_type is not a nested function; the naming table is not applied to this form")
+        return
+    a0, a1 = [x.arg for x in namer.args.args][:2]
+    for p in paths.Summariser(mod, namer).paths():
+        t = p.truth(f"isinstance({a0}.object, Response)")
+        want = {True: f"f'Response ({{{a1}}})'", False: f"f'{{type({a0}.object).__name__}}'"}.get(t)
+        alt = {False: f"type({a0}.object).__name__"}.get(t)
+        run.ob("L7", t is not None and p.end == "return" and p.value_text() in (want, alt), f"type listing [{label(p)}]: {p.value_text()}",
+               f"on the path [{label(p)}] a decodable candidate is listed as `{p.value_text()}`; required: the decoded object's type "
+               "name, a response as `Response (<its command code>)`", module=mod, node=p.node or namer, func=namer.name, construct="type listing name")
 
 
 def l5(run, mod, fns):
